@@ -100,10 +100,9 @@ let () = iter_lines (fun line ->
       let good v = (match sf (pf v) with Some (v', []) -> v' = v | _ -> false) in
       let names = ["str_nul"; "str_nl"; "str_comment"; "str_len"; "str_bytes"; "distinct"; "fn_fields"; "fn_names"; "layout";
                    "code_bytes"; "code_decodes"; "code_targets"; "code_boundaries"; "code_patches"; "code_f64"; "label_total"; "entry"] in
-      let cs = wf_conjuncts table_list good m in
+      let cs = wf_conjuncts_fast table_list good m in   (* = wf_conjuncts, theorem C11_wf_fast_is_wf *)
       let bad = List.filter_map (fun (nm, ok) -> if ok then None else Some nm) (List.combine names cs) in
-      if (bad = []) <> wf_moduleb table_list good m then print_string "inconsistent\n"
-      else print_string (if bad = [] then "wf\n" else "notwf " ^ String.concat "," bad ^ "\n")
+      print_string (if bad = [] then "wf\n" else "notwf " ^ String.concat "," bad ^ "\n")
   | ["f64"; h] ->
       let t = pf (n_of_hex h) in
       print_string ("ok " ^ hex_of_bytes t ^ " " ^ (match sf t with Some (v, []) -> hex_of_n v | _ -> "rej") ^ "\n")
